@@ -42,6 +42,7 @@ def all_ops():
     o.append(op('extend', vs=[good[1], good[3]]))
     o.append(op('extend', vs=[good[0], good[2]]))
     o.append(op('extend', vs=[]))
+    o.append(op('extend', vs=[good[3], VALS[8]]))           # a malformed string after a good one: rejected as a whole
     o.append(op('extend', j=1, vs=[good[1], good[3]]))      # j = form of the iterable: 0 list, 1 iterator, 2 generator, 3 tuple
     o.append(op('extend', j=2, vs=[good[4], good[0]]))
     o.append(op('extend', j=3, vs=[good[2]]))
